@@ -153,13 +153,13 @@ def directed(name, quick):
 
 SOURCES = {
     'C01': ('flat', 'nest', 'chan', 'deep', 'unroll2', 'sim', 'repotests', 'library'),
-    'C02': ('flat', 'nest', 'chan', 'deep', 'sim', 'repotests', 'library'),
+    'C02': ('flat', 'nest', 'chan', 'deep', 'obsnest', 'sim', 'repotests', 'library'),
     'C04': ('flat', 'nest', 'sim', 'repotests'),
     'C05': ('kinds', 'copyapplied', 'nest', 'sim'),
     'C06': ('unroll', 'unroll2', 'nest', 'sim', 'library'),
     'C07': ('acq', 'sim'),
     'C11': ('flatten', 'flatdir', 'sim', 'library'),
-    'C03': ('hist', 'plothist', 'sim'),
+    'C03': ('hist', 'plothist', 'acq', 'obsnest', 'sim'),
     'C08': ('kinds', 'export', 'sim', 'library'),
     'C18': ('drawkinds', 'drawhist', 'drawnest'),
     'C15': ('kinds', 'export', 'qldir'),
@@ -193,6 +193,11 @@ def programs_for(pid, tier, seed):
                gen.leaf('Wait', [1], [[1, 'ALL']], ['fixed', 0]), gen.leaf('Rx180', [1], [[1, 'MICROWAVE']], ['global', 'MW'])],
       reps=[('fixed', 1), ('fixed', 2)], acts=('NewCircuit', 'AddOp', 'AddSub', 'Apply', 'Obs'), linktypes=('FB', 'JE'),
       max_circs=2, max_objs=5, max_steps=5 if quick else 6, cap=700 if quick else 6000, one_in=100 if quick else 50, workers=4)
+    # (2a') exhaustive, tiny alphabet: the listing is read in the middle of the build, then a sub-circuit / operation is added
+    g('obsnest', [gen.leaf('Wait', [0], [[0, 'ALL']], ['fixed', 4]), gen.leaf('DispersiveMeasure', [1], [[1, 'READOUT']], ['global', 'RO'])],
+      reps=[('fixed', 1), ('fixed', 2)], acts=('NewCircuit', 'AddOp', 'AddSub', 'Apply', 'Obs'), obskinds=('full', 'ops'), linktypes=(), max_circs=2, max_objs=8,
+      max_steps=6 if quick else 7, workers=8, min_emit=5, timeout=120, cap=1500 if quick else 20000,
+      keep=lambda p: any(s['a'] == 'Obs' and any(t['a'] in ('AddSub', 'Apply') for t in p[i + 1:]) for i, s in enumerate(p)))
     # (2b) exhaustive, implicit rule across nesting: one qubit, every channel kind, no explicit relation; a sub-circuit's
     #      channels are what its operations occupy (ALL bridges the specific channels)
     one = [gen.leaf('Wait', [0], [[0, ch]], ['fixed', 4]) for ch in ('ALL', 'MICROWAVE', 'FLUX')] + meas((0,), tags=('',))
